@@ -18,6 +18,7 @@ func init() {
 	execs["c07.print"] = execC07Print
 	execs["c07.lines"] = execC07Lines
 	execs["c07.hash"] = execC07Hash
+	execs["c07.alias"] = execC07Alias
 	gens["C07"] = genC07
 }
 
@@ -370,6 +371,13 @@ func genC07(c *Ctx) {
 	//    branches under a shallow root (a reused Hasher must survive the error)
 	c07Deep(c, r.Fork(0xc07d))
 	c07Phase("deep")
+	// 10. cells whose data fill the 128-byte buffer (the parser must neither
+	//     write into nor retain the caller's slice), and lean-magic headers
+	//     with counter widths of 8..255 bytes at the values where a product of
+	//     a counter and a width wraps
+	c07FullCells(c, r.Fork(0xc07e))
+	c07WideLean(c, r.Fork(0xc07f))
+	c07Phase("full-cells+wide-lean")
 	c07DumpStats()
 }
 
